@@ -19,7 +19,9 @@ def evaluate(ck, data, rules, docg):
             if not ch and r["same_count"]:
                 noop += 1  # the rule handed edits to update for the lines it reported and no line changed
                 if rep_lines:
-                    ck.violation("reported-lines-not-changed:" + rid, "%s: %s reported lines %r and its fix changed no line at all" % (T.tag(o), rid, rep_lines[:8]), T.rep(o, r, changed=ch))
+                    opts = (o.get("label") or {}).get("options") or o.get("derived_options") or {}
+                    oc = ",".join("%s=%s" % (k_, json.dumps(v_, default=str)) for k_, v_ in sorted(opts.items()) if k_ != "disable")[:60]
+                    ck.violation("reported-lines-not-changed:%s%s" % (oc + ":" if oc else "", rid), "%s: %s reported lines %r and its fix changed no line at all" % (T.tag(o), rid, rep_lines[:8]), T.rep(o, r, changed=ch))
                 continue
             n += 1
             if not r["same_count"]:
